@@ -10,6 +10,10 @@ Gate 3 (property oracle, Python big integers, shares nothing with the model): ex
         every GGSW cell (its error e), of the inputs and of every output; the output phase must
         equal m2 * phase(input) (CMux: phase(t) for bit 1, phase(f) for bit 0) within the explicit
         worst-case bound built from max|e|, the digit size, the dropped limbs and the output ulp.
+Gate 5 (row expansion, `pvh expand` / `pdriver expand`): ggsw_from_gglwe modelled and tied bit for bit on the four
+        back ends; for ggsw_from_gglwe, ggsw_keyswitch and ggsw_automorphism (ranks 1, 2 and 3) the oracle first checks
+        every cell of the GGLWE->GGSW key against s_i*s_j (error within the sampler's bound) and then EVERY cell
+        (row, col) of the resulting GGSW against m2*s_col*2^(-(row+1)*dsize*b) within the explicit bound.
 Gate 4 (scratch independence): the same call with a dirty scratch arena must give the same bits, and
         CMux cases with dsize >= 3 are also run with exactly representable stale content left in the slot
         that res_dft will occupy (this is how the defect repaired by poulpy d3c2e96 was found).
@@ -263,6 +267,10 @@ def oracle_case(c, a, res_str):
     op = c["op"]
     sn = 1 + sum(l1(s) for s in sk)
     det = {"ggsw_emax_log2": round(math.log2(emax + 1) - ebits, 2)}
+    # the sampler's contract |e| <= 6 sigma 2^-k: a larger value means a cell does not encrypt m2·σ_c at its gadget position
+    if emax / 2.0 ** ebits > 20.0 * 2.0 ** (-c["kg"]):
+        det["why"] = "a GGSW cell produced by ggsw_encrypt_sk does not encrypt m2*s_col at its gadget position"
+        return False, det
     checks = []
     if op in ("glwe", "glwe_assign"):
         ain = parse_vec(a["a"], n)
@@ -331,6 +339,216 @@ def oracle_case(c, a, res_str):
     det["loose"] = loose
     return True, det
 
+
+
+# ------------------------------------------------------------------ row expansion (third clause)
+def automorphism(p, m):
+    n = len(m)
+    out = [0] * n
+    for i, v in enumerate(m):
+        e = (i * p) % (2 * n)
+        if e >= n:
+            out[e - n] -= v
+        else:
+            out[e] += v
+    return out
+
+
+def gen_expand(rng, idx, quick):
+    op = ["from_gglwe", "from_gglwe", "ks", "from_gglwe", "auto"][idx % 5]
+    rank = [3, 1, 2, 3, 2, 1, 3][idx % 7]            # every rank, rank 3 most often
+    n = rng.choice([8, 8, 16])
+    ntt_only = rng.chance(1, 8)
+    ba = rng.range(18, 30) if ntt_only else rng.range(8, 14)
+    dsa = rng.choice([1, 1, 2])
+    dnum = rng.range(1, 3)
+    size_o = dnum * dsa + rng.range(1, 2)
+    ko = ba * size_o - rng.below(ba // 2)
+    size_a = size_o + rng.range(-1, 1) if op == "from_gglwe" else size_o
+    size_a = max(size_a, dnum * dsa + (0 if op == "from_gglwe" else 1), dsa + 1)
+    ka = ba * size_a - rng.below(ba // 2)
+    bk = ba if (rng.chance(1, 2) or ntt_only) else max(6, ba + rng.range(-2, 2))
+    dsk = rng.choice([1, 1, 2, 3])
+    # the key must cover the result precision with room for the digit noise
+    size_k = max(dsk + 1, ceil_div(ba * size_o, bk) + dsk + 1)
+    kk = bk * size_k - rng.below(bk // 2)
+    dnk_full = ceil_div(ceil_div(ba * size_o, bk), dsk)
+    dnk = min(size_k // dsk, dnk_full if rng.chance(3, 4) else max(1, dnk_full - 1))
+    m2s = ["one", "mone", f"mono:{rng.below(n)}", f"dense:{rng.below(1 << 30)}", "zero"]
+    c = dict(op=op, n=n, rank=rank, ba=ba, ka=ka, dsa=dsa, dnum=dnum, ko=ko, bk=bk, kk=kk, dsk=dsk, dnk=dnk,
+             m2=rng.choice(m2s), seed=rng.below(1 << 40) + 1)
+    if op == "auto":
+        c["p"] = rng.choice([-1, -5, 3, 5, 2 * n - 1, 25])
+    return c
+
+
+def expand_fft_ok(c):
+    return c["n"] * c["dnk"] * c["rank"] * c["dsk"] * (1 << (2 * c["bk"])) <= (1 << 50) and c["bk"] <= 17 and c["ba"] <= 17
+
+
+def expand_model_line(c, a, big):
+    S = ceil_div(c["kk"], c["bk"])
+    return (f"expand op=from_gglwe big={big} n={c['n']} bo={c['ba']} so={ceil_div(c['ko'], c['ba'])} "
+            f"kp={c['bk']},{c['rank']},{c['dsk']},{c['dnk']},{S} k={a['k']} am={a['am']}")
+
+
+def expand_key_error(c, a, sk):
+    """max |phase(key cell) − s_i·s_j·2^(−(row+1)·dsk·bk)| over the whole GGLWE→GGSW key (torus units)"""
+    n, rank, bk, dsk, dnk = c["n"], c["rank"], c["bk"], c["dsk"], c["dnk"]
+    S = ceil_div(c["kk"], bk)
+    cols = rank + 1
+    g = [int(x) for x in a["k"].split(",")]
+    cell_len = cols * S * n
+    assert len(g) == rank * dnk * rank * cell_len
+    emax = 0
+    where = None
+    for i in range(rank):
+        for row in range(dnk):
+            for j in range(rank):
+                q = (i * dnk + row) * rank + j
+                v = g[q * cell_len:(q + 1) * cell_len]
+                ct = [[v[(co * S + l) * n:(co * S + l + 1) * n] for l in range(S)] for co in range(cols)]
+                ph, bits = phase(ct, sk, bk)
+                want = negmul(sk[i], sk[j])
+                sh = bk * S - bk * (row + 1) * dsk
+                for t in range(n):
+                    e = abs(centered(ph[t] - (want[t] << sh if sh >= 0 else 0), 1 << bits))
+                    if e > emax:
+                        emax, where = e, (i, row, j)
+    return emax / 2.0 ** (bk * S), where
+
+
+def oracle_expand(c, a, res_str):
+    """every cell (row, col) of the resulting GGSW against m2·σ_col·2^(−(row+1)·dsize·b)"""
+    n, rank, ba, dsa, bk, dsk, dnk = c["n"], c["rank"], c["ba"], c["dsa"], c["bk"], c["dsk"], c["dnk"]
+    cols = rank + 1
+    skv = [int(x) for x in a["sk"].split(",")]
+    sk = [skv[i * n:(i + 1) * n] for i in range(rank)]
+    m2 = [int(x) for x in a["m2"].split(",")]
+    if c["op"] == "auto":
+        m2 = automorphism(c["p"], m2)
+    sn = 1 + sum(l1(s) for s in sk)
+    S = ceil_div(c["kk"], bk)
+    det = {}
+    ekey, where = expand_key_error(c, a, sk)
+    det["key_emax_log2"] = round(math.log2(ekey), 2) if ekey > 0 else None
+    # the sampler's contract: |e| <= 6 sigma 2^-k (sigma = 3.2); anything larger means the key does not encrypt s_i·s_j
+    if ekey > 20.0 * 2.0 ** (-c["kk"]):
+        det["why"] = f"GGLWE->GGSW key cell (key {where[0]}, row {where[1]}, input column {where[2]}) does not encrypt s_i*s_j"
+        return False, det
+    cells = [parse_vec(x, n) for x in res_str.split(";")]
+    so = len(cells[0][0])
+    e_in = 20.0 * 2.0 ** (-c["ka"])
+    size_conv = ceil_div(so * ba, bk)
+    rows_used = min(dnk, ceil_div(size_conv, dsk))
+    digit = rows_used * rank * n * 2.0 ** (bk * dsk - 1) * 1.01
+    ignored = rows_used * rank * n * sn * 2.0 ** (-bk * (S - dsk + 1)) if dsk > 2 else 0.0
+    rnd = sn * 2.0 ** (-ba * so) * 1.01
+    dropped = 2.0 ** (-bk * dnk * dsk - 1) * 1.01 if size_conv > dnk * dsk else 0.0
+    if c["op"] == "from_gglwe":
+        b0 = e_in + rnd
+    else:
+        # key switch / automorphism of column 0 first: same gadget noise with a key of the same shape, input secret of norm <= n
+        b0 = e_in + digit * 20.0 * 2.0 ** (-c["kk"]) + ignored + rank * n * dropped + rnd
+    worst = 0.0
+    loose = False
+    for q, cell in enumerate(cells):
+        row, col = q // cols, q % cols
+        sigma = [1] + [0] * (n - 1) if col == 0 else sk[col - 1]
+        want = negmul(m2, sigma)
+        ph, bits = phase(cell, sk, ba)
+        sh = bits - ba * (row + 1) * dsa
+        ref = [w << sh for w in want] if sh >= 0 else [0] * n
+        d, B = torus_diff(ph, bits, ref, bits)
+        dv = d / 2.0 ** B
+        if col == 0:
+            bnd = b0
+        else:
+            s2 = sum(l1(negmul(sk[col - 1], sj)) for sj in sk)
+            bnd = l1(sk[col - 1]) * b0 + digit * ekey + ignored + s2 * dropped + rnd
+        if bnd >= 0.125:
+            loose = True
+            continue
+        worst = max(worst, dv / bnd)
+        if dv > bnd:
+            det.update({"why": "GGSW cell does not encrypt m2*s_col at its gadget position", "row": row, "col": col,
+                        "diff_log2": round(math.log2(dv), 2), "bound_log2": round(math.log2(bnd), 2)})
+            return False, det
+    det["ratio"] = round(worst, 4)
+    det["loose"] = loose
+    return True, det
+
+
+def run_expand(ctx, binp, drv, quick, broken):
+    rng = ctx.rng.fork()
+    ncases = 45 if quick else 400
+    cases = [gen_expand(rng, i, quick) for i in range(ncases)]
+    lines = [f"{k} {req_line(c)}" for k, c in enumerate(cases)]
+    rc, out, err = ctx.run_lines(binp, ["expand"], lines, timeout=3000)
+    answers = [out[k].split(" ", 1)[1] if k < len(out) and " " in out[k] else "missing" for k in range(len(cases))]
+    mlines, index = [], []
+    for k, (c, ans) in enumerate(zip(cases, answers)):
+        a = parse_answer(ans)
+        if a is None:
+            broken.append(f"harness could not generate expand case {req_line(c)}: {ans[:80]}")
+            continue
+        if c["op"] == "from_gglwe":
+            for big in (0, 1):
+                mlines.append(f"{len(mlines)} " + expand_model_line(c, a, big))
+                index.append((k, big))
+    rc, mout, merr = ctx.run_lines(drv, [], mlines, timeout=3000) if mlines else (0, [], "")
+    model = {index[i]: (mout[i].split(" ", 1)[1] if i < len(mout) and " " in mout[i] else "missing") for i in range(len(index))}
+    hist = {}
+    n_or = n_loose = 0
+    worst = 0.0
+    witness = None
+    for k, (c, ans) in enumerate(zip(cases, answers)):
+        a = parse_answer(ans)
+        if a is None:
+            continue
+        fft_ok = expand_fft_ok(c)
+        outs = [a.get(f"be{i}", "missing") for i in range(4)]
+        ctx.count_case(("expand", c["op"], c["rank"], c["dsa"], c["dsk"], c["bk"] == c["ba"], c["n"], fft_ok, c["m2"].split(":")[0],
+                        c["dnk"] * c["dsk"] * c["bk"] < ceil_div(c["ko"], c["ba"]) * c["ba"]), nontrivial=True)
+        for hk in (f"expand:{c['op']}", f"expand:rank{c['rank']}", f"expand:key_dsize{c['dsk']}"):
+            hist[hk] = hist.get(hk, 0) + 1
+        for i in range(4):
+            if BIG128[i] == 0 and not fft_ok:
+                continue
+            if outs[i].startswith("panic"):
+                broken.append(f"{BE_NAMES[i]} panics on: expand {req_line(c)}")
+            elif c["op"] == "from_gglwe" and outs[i] != model[(k, BIG128[i])]:
+                ctx.disagreements += 1
+                if len(broken) < 12:
+                    broken.append(f"model != {BE_NAMES[i]} on: expand {req_line(c)}")
+        if fft_ok and len(set(outs)) > 1:
+            broken.append(f"back ends disagree on: expand {req_line(c)}")
+        if not outs[1].startswith("panic"):
+            okc, det = oracle_expand(c, a, outs[1])
+            n_or += 1
+            n_loose += 1 if det.get("loose") else 0
+            worst = max(worst, det.get("ratio", 0.0))
+            if not okc:
+                ctx.oracle_failures += 1
+                witness = {"request": "expand " + req_line(c), "back_end": "NTT120Ref", "oracle": det,
+                           "rerun": f"printf '1 {req_line(c)}\\n' | harness/target/release/pvh expand"}
+                broken.append(f"row-expansion oracle fails: expand {req_line(c)} {det}")
+        if k == 0:
+            ctx.samples.append({"request": "expand " + req_line(c), "implementation(NTT120Ref)": outs[1][:160],
+                                "model": model.get((k, 1), "(oracle only)")[:160]})
+    # secret-tensor index map against the formula of GLWESecretTensor::at, ranks 1..6
+    for r in range(1, 7):
+        rc, o, _ = ctx.run_lines(drv, [], [f"0 expand op=idx rank={r}"])
+        got = o[0].split(" ", 1)[1] if o and " " in o[0] else "missing"
+        want = ",".join(str(min(i, j) * r + max(i, j) - min(i, j) * (min(i, j) + 1) // 2) for i in range(r) for j in range(r))
+        if got != want:
+            broken.append(f"secretTensorIdx differs from GLWESecretTensor::at for rank {r}")
+    ctx.cov["expand_cases"] = len(cases)
+    ctx.cov["expand_oracle_checks"] = n_or
+    ctx.cov["expand_oracle_undecidable"] = n_loose
+    ctx.cov["expand_max_noise_over_bound"] = round(worst, 4)
+    ctx.cov["expand_histogram"] = hist
+    return witness
 
 # ------------------------------------------------------------------ main
 def run_batch(ctx, binp, drv, cases, dirty=0):
@@ -457,6 +675,9 @@ def run(ctx):
         ctx.cov["dirty_scratch_cases"] = len(sub)
         ctx.cov["dirty_scratch_differences"] = n_stale
 
+    if binp and drv:
+        w2 = run_expand(ctx, binp, drv, quick, broken)
+        witness = witness or w2
     if stale_witness is not None:
         # regression of the defect repaired by poulpy d3c2e96 (CMux forms, dsize >= 3, res_dft not zeroed)
         ctx.violation("output depends on the prior content of the scratch arena", {"witness": stale_witness}, True)
